@@ -285,9 +285,10 @@ type Outcome struct {
 
 	Desc *TableDesc `json:"desc,omitempty"`
 
-	Unproc     []BatchReq        `json:"unproc,omitempty"`
-	Resp       map[string][]Item `json:"resp,omitempty"`
-	UnprocKeys []BatchKey        `json:"unproc_keys,omitempty"`
+	Unproc      []BatchReq        `json:"unproc,omitempty"`
+	Resp        map[string][]Item `json:"resp,omitempty"`
+	UnprocKeys  []BatchKey        `json:"unproc_keys,omitempty"`
+	UnprocEmpty []string          `json:"unproc_empty,omitempty"` // tables named in UnprocessedItems / UnprocessedKeys without any request or key
 }
 
 func (o Outcome) OK() bool { return o.Class == "ok" }
